@@ -123,9 +123,10 @@ static void slice_check(mu *u, uint64_t y_inv)
             S.concurrent_reqs++;
             break;
         }
-    if (!conc_ok && u->inflight_pool == seen) {
+    if (!conc_ok && u->inflight_pool == seen && seen != u->cur_pool) {
         /* a request call still in flight has already stored its target: it overrides every
-         * earlier request (its target may be the pool the unit is in already) */
+         * earlier request.  (Only if the unit has moved: a call in flight that names the pool
+         * the unit was in all along is going to be rejected and overrides nothing.) */
         conc_ok = 1;
         for (int j = 0; j < nr; j++)
             u->R[j].consumed = 1;
